@@ -177,6 +177,7 @@ func RunOne(t *testing.T, spec Spec) (res *Result) {
 			}
 		}()
 		synctest.Test(t, func(t *testing.T) {
+			simrt.ReinitGlobals()
 			sg := NewRand(spec.SchedSeed)
 			cfg := simrt.Config{Seed: spec.SchedSeed, MaxSteps: 60000, KeepLog: spec.KeepLog}
 			if spec.Strategy >= 0 {
